@@ -520,6 +520,90 @@ def rule_v3(repo, res):
 
 
 # ------------------------------------------------------------------ C20
+def rule_io_kind(repo, res):
+    """IO-KIND: what the argument parser of pvl_translate produces for the output (and input) argument is of a kind
+    every writer of the formats table can use.  A writer that hands its *outfile* to json.dump (or calls .write on
+    it) needs an open, writable file object; pvl.dump / pvl.load take a path or a file object.  Provider kinds:
+    type=argparse.FileType(mode) -> file object of that mode (and '-' -> standard stream); no type / str / Path ->
+    a path."""
+    tr = repo.module("pvl_translate")
+    ap = tr.functions.get("arg_parser")
+    if ap is None:
+        raise AnalysisError("anchor vanished: pvl_translate.arg_parser")
+    ap = repo.full_function("pvl_translate", "arg_parser")
+    from . import canon
+    cm = canon.canon_function(repo, "pvl_translate", "main", keep=("args",))
+    out_attr = in_attr = None
+    for n in ast.walk(cm):
+        if isinstance(n, ast.Call) and isinstance(n.func, ast.Attribute) and n.func.attr == "dump" and norm(n.func.value).startswith("formats[") \
+                and len(n.args) == 2 and isinstance(n.args[1], ast.Attribute) and norm(n.args[1].value) == "args":
+            out_attr = n.args[1].attr
+        if isinstance(n, ast.Call) and norm(n.func) in ("pvl.load", "load") and n.args and isinstance(n.args[0], ast.Attribute) \
+                and norm(n.args[0].value) == "args":
+            in_attr = n.args[0].attr
+    if out_attr is None or in_attr is None:
+        raise AnalysisError("anchor vanished: pvl_translate.main does not pass args.<infile> to pvl.load and args.<outfile> to a writer")
+
+    def provided(dest):
+        for n in ast.walk(ap):
+            if isinstance(n, ast.Call) and isinstance(n.func, ast.Attribute) and n.func.attr == "add_argument" and n.args \
+                    and isinstance(n.args[0], ast.Constant) and str(n.args[0].value).lstrip("-") == dest:
+                kw = {k.arg: k.value for k in n.keywords}
+                t = kw.get("type")
+                if "dest" in kw and norm(kw["dest"]).strip("'\"") != dest:
+                    continue
+                if t is None:
+                    return ("path", None, n)
+                if isinstance(t, ast.Call) and norm(t.func) in ("argparse.FileType", "FileType"):
+                    mode = t.args[0].value if t.args and isinstance(t.args[0], ast.Constant) else next(
+                        (k.value.value for k in t.keywords if k.arg == "mode" and isinstance(k.value, ast.Constant)), "r")
+                    return ("file", mode, n)
+                if norm(t) in ("str", "Path", "pathlib.Path", "os.fspath", "os.path.abspath", "os.path.expanduser"):
+                    return ("path", None, n)
+                raise AnalysisError(f"IO-KIND: argument type `{norm(t)}` of {dest} not classified")
+        raise AnalysisError(f"anchor vanished: add_argument for {dest!r} in pvl_translate.arg_parser")
+    okind, omode, onode = provided(out_attr)
+    ikind, imode, inode = provided(in_attr)
+    # consumers: the dump methods of the writer classes (every class of the module with a dump(self, x, outfile))
+    needs_file = []
+    n_w = 0
+    for cname in sorted(tr.classes):
+        if cname not in repo.classes or "dump" not in repo.classes[cname].methods:
+            continue
+        fn = repo.full(cname, "dump")
+        ps = [a.arg for a in fn.args.args]
+        if len(ps) < 3:
+            continue
+        n_w += 1
+        o = ps[2]
+        for n in ast.walk(fn):
+            if isinstance(n, ast.Call):
+                pos = [i for i, a in enumerate(n.args) if isinstance(a, ast.Name) and a.id == o]
+                kws = [k.arg for k in n.keywords if isinstance(k.value, ast.Name) and k.value.id == o]
+                f = norm(n.func)
+                if (pos or kws) and f in ("json.dump", "print") or (f == "json.dump" and "fp" in kws):
+                    needs_file.append((cname, f"{f}(..., {o})", n))
+                elif (pos or kws) and f not in ("pvl.dump", "dump", "pvl.new.dump"):
+                    raise AnalysisError(f"IO-KIND: {cname}.dump hands its outfile to `{f}`; not classified")
+                if isinstance(n.func, ast.Attribute) and isinstance(n.func.value, ast.Name) and n.func.value.id == o:
+                    needs_file.append((cname, f"{o}.{n.func.attr}()", n))
+    res.floor("writer classes with dump(self, module, outfile)", n_w, 2)
+    writable = okind == "file" and any(c in (omode or "") for c in "wax+")
+    for cname, what, n in needs_file:
+        res.oblige("IO-KIND", f"{cname}.dump `{what}` needs an open writable file: arg_parser provides {okind}{'(' + repr(omode) + ')' if omode else ''}", ok=writable)
+        if not writable:
+            res.add(Finding("IO-KIND", f"{cname}.dump", f"outfile kind {okind}",
+                            f"{cname}.dump uses its outfile as an open file (`{what}`) but pvl_translate.arg_parser produces a "
+                            f"{'path' if okind == 'path' else 'file opened ' + repr(omode)} for `{out_attr}`: `pvl_translate -of "
+                            f"<that format> in out` fails although the library call succeeds", where=f"pvl/pvl_translate.py:{onode.lineno}"))
+    readable = ikind == "path" or (ikind == "file" and not any(c in (imode or "r") for c in "wax"))
+    res.oblige("IO-KIND", f"pvl.load(args.{in_attr}) gets a path or a file opened for reading ({ikind}, {imode!r})", ok=readable)
+    if not readable:
+        res.add(Finding("IO-KIND", "pvl_translate.arg_parser", f"infile mode {imode!r}",
+                        f"`{in_attr}` is opened with mode {imode!r}: pvl.load cannot read it (and the input file is truncated)",
+                        where=f"pvl/pvl_translate.py:{inode.lineno}"))
+
+
 def rule_tb9(repo, res):
     """formats / dialects dispatch tables."""
     from . import ctor
@@ -807,6 +891,76 @@ def rule_mapping_iteration(repo, res):
                         n += 1
                         res.oblige("V4", f"{c}.{m}: `{norm(it)}`", ok=True)
     res.floor("iterations over Mapping arguments in encoders/parsers", n, 4)
+
+
+def _reindex_sites(fn):
+    """(node, text) of `m[k]` / `m.get(k)` / `m.getall(k)[0]` evaluated per key k of an iteration over m's keys"""
+    out = []
+    loops = []
+    for n in ast.walk(fn):
+        if isinstance(n, (ast.ListComp, ast.SetComp, ast.GeneratorExp, ast.DictComp)):
+            for g in n.generators:
+                loops.append((g.target, g.iter, [n]))
+        if isinstance(n, ast.For):
+            loops.append((n.target, n.iter, n.body))
+    for tgt, it, body in loops:
+        if not isinstance(tgt, ast.Name):
+            continue
+        base = it
+        if isinstance(it, ast.Call) and isinstance(it.func, ast.Attribute) and it.func.attr == "keys" and not it.args:
+            base = it.func.value
+        elif isinstance(it, ast.Call) and norm(it.func) in ("list", "tuple", "iter", "sorted", "set") and len(it.args) == 1:
+            base = it.args[0]
+            if isinstance(base, ast.Call) and isinstance(base.func, ast.Attribute) and base.func.attr == "keys" and not base.args:
+                base = base.func.value
+        elif isinstance(it, ast.Call):
+            continue
+        b = norm(base)
+        for st in body:
+            for x in ast.walk(st):
+                if isinstance(x, ast.Subscript) and isinstance(x.ctx, ast.Load) and norm(x.value) == b and isinstance(x.slice, ast.Name) \
+                        and x.slice.id == tgt.id:
+                    out.append((x, norm(x), base))
+                if isinstance(x, ast.Call) and isinstance(x.func, ast.Attribute) and x.func.attr == "get" and norm(x.func.value) == b \
+                        and x.args and isinstance(x.args[0], ast.Name) and x.args[0].id == tgt.id:
+                    out.append((x, norm(x), base))
+    return out
+
+
+def rule_reindex(repo, res):
+    """REINDEX: no function of the package walks the KEYS of a mapping it was handed (or of the container itself) and
+    looks each key up again (`m[k] for k in m.keys()`): in a multi-valued container a repeated key is visited once
+    per occurrence but `m[k]` is the FIRST value every time, so the later values are replaced by copies of the first.
+    Pairs are obtained from .items() (or by position).  Locals built in the function from a dict display / dict(...)
+    are plain dicts and exempt."""
+    n = 0
+    # a tiny positive example: the rule must see the pattern it looks for on every run
+    probe = ast.parse("def f(arg):\n    return [(k, arg[k]) for k in arg.keys()]").body[0]
+    if len(_reindex_sites(probe)) != 1:
+        raise AnalysisError("REINDEX self-check failed")
+    for mname, mod in sorted(repo.modules.items()):
+        fns = [(f.name, f) for f in mod.functions.values()]
+        for cname, cnode in mod.classes.items():
+            fns += [(f"{cname}.{k}", v) for k, v in repo.classes[cname].methods.items()] if cname in repo.classes else []
+        for name, fn in fns:
+            n += 1
+            plain = set()
+            for a in ast.walk(fn):
+                if isinstance(a, ast.Assign) and len(a.targets) == 1 and isinstance(a.targets[0], ast.Name) and (
+                        isinstance(a.value, (ast.Dict, ast.DictComp)) or (isinstance(a.value, ast.Call) and norm(a.value.func) in ("dict", "vars", "locals"))):
+                    plain.add(a.targets[0].id)
+            for x, txt, base in _reindex_sites(fn):
+                if isinstance(base, ast.Name) and base.id in plain:
+                    continue
+                if isinstance(base, ast.Attribute) and norm(base).startswith(("self.grammar.", "self.decoder.", "g.", "grammar.")):
+                    continue        # grammar tables are plain dicts
+                res.oblige("REINDEX", f"{name}: `{txt}` per key of `{norm(base)}`", ok=False)
+                res.add(Finding("REINDEX", name, f"looks each key of {norm(base)} up again",
+                                f"{name} walks the keys of `{norm(base)}` and reads `{txt}` for each: when the mapping is a "
+                                "multi-valued container, every occurrence of a repeated key gets the FIRST value, so the pairs "
+                                "that are copied, converted or written lose the later values", where=f"pvl/{mname}.py:{x.lineno}"))
+    res.oblige("REINDEX", f"{n} functions: no key-by-key lookup over a mapping's own keys", ok=True, nontrivial=False)
+    res.floor("functions scanned for REINDEX", n, 150)
 
 
 def rule_no_hardcoded_containers(repo, res):
